@@ -112,6 +112,7 @@ func C17(cfg Cfg) int {
 	}
 	wg.Wait()
 	c17InFlight(run, cfg)
+	c17Sliding(run, cfg)
 	for _, need := range []string{"asserted:prepare/active", "asserted:prepare/not-active", "asserted:commit/not-active", "commit_succeeded", "asserted:execute/not-active", "asserted:abort/active", "expired_sessions_observed"} {
 		if run.Get(need) == 0 {
 			run.Inconclusive("never observed: " + need)
@@ -392,5 +393,62 @@ func c17InFlight(run *evid.Run, cfg Cfg) {
 	}
 	if run.Get("inflight_rounds") == 0 {
 		run.Inconclusive("in-flight scenario never ran")
+	}
+}
+
+// c17Sliding: the timeout runs from the prepare.  Messages that arrive while the generation is active (an execute, a
+// refused second prepare, a refused commit) must not extend it: 1.1 timeouts after the prepare - and only 0.55
+// after such a message - the generation is gone, a commit is refused and a new prepare succeeds.
+func c17Sliding(run *evid.Run, cfg Cfg) {
+	ids := []uint64{1, 2, 3}
+	c, err := rig.NewCluster(rig.ClusterOpts{Dir: cfg.Dir("c17-sliding"), IDs: ids,
+		ProcessOp: []standardprocess.Parameter{standardprocess.WithGenerationTimeout(c17Timeout)}})
+	if err != nil {
+		run.Inconclusive(err.Error())
+		return
+	}
+	defer c.Close()
+	peer := c.Endpoint(ids[0]).Name
+	for round, touch := range []string{"execute", "second-prepare", "commit", "contribute"}[:cfg.N(3, 4)] {
+		account := fmt.Sprintf("D/sliding-%d", round)
+		g := &manualGen{c: c, ids: ids, account: account, t: 2, as: peer}
+		t0 := time.Now()
+		for _, id := range ids {
+			if err := g.prepare(id); err != nil {
+				run.Inconclusive("sliding scenario: prepare failed: " + err.Error())
+				return
+			}
+		}
+		time.Sleep(c17Timeout * 55 / 100)
+		switch touch {
+		case "execute":
+			_ = g.execute(ids[0])
+		case "second-prepare":
+			_ = g.prepare(ids[0])
+		case "commit":
+			_, _, _ = g.commit(ids[0], Root32(1))
+		case "contribute":
+			sec, vv := fakeContribution(2, ids[0])
+			_, _ = c.Inst[ids[0]].Stack.ReceiverH.Contribute(rig.PeerCtx(c.Endpoint(ids[1]).Name), &pb.ContributeRequest{Account: account, Secret: sec, VerificationVector: vv})
+		}
+		time.Sleep(t0.Add(c17Timeout * 110 / 100).Sub(time.Now()))
+		if since := time.Since(t0); since > c17Timeout*150/100 {
+			run.Count("sliding_rounds_skipped_for_timing", 1)
+			continue // the machine was too slow for the scenario to mean anything
+		}
+		_, _, commitErr := g.commit(ids[0], Root32(2))
+		prepErr := g.prepare(ids[0])
+		run.Eval(1)
+		run.Count("sliding_rounds", 1)
+		run.Distinct(fmt.Sprintf("1.1 timeouts after prepare, 0.55 after %s: commit-refused=%v new-prepare-ok=%v", touch, commitErr != nil, prepErr == nil))
+		if commitErr == nil {
+			run.Violate(fmt.Sprintf("commit for %s was accepted 1.1 timeouts after its prepare (a %s message had arrived in between): the timeout did not end the generation", account, touch), map[string]any{"touch": touch})
+		}
+		if prepErr != nil {
+			run.Violate(fmt.Sprintf("a new prepare for %s was refused (%v) 1.1 timeouts after the first one (a %s message had arrived in between): the generation outlived its timeout", account, prepErr, touch), map[string]any{"touch": touch})
+		}
+		for _, id := range ids {
+			_, _ = c.Inst[id].Stack.ReceiverH.Abort(rig.PeerCtx(peer), &pb.AbortRequest{Account: account})
+		}
 	}
 }
